@@ -297,6 +297,32 @@ def _introspect_fun(
     return fis
 
 
+def function_given_through_module(
+    node: ast.Attribute, start_mod: ModuleType, local_names: Set[Any]
+) -> Optional[str]:
+    """
+    'm.f' (or 'pkg.m.f') written where it is not called, for instance apply(m.f): the dotted name if it denotes a
+    python function reached through modules bound in start_mod, else None.
+    """
+    parts: List[str] = []
+    cur: Any = node
+    while isinstance(cur, ast.Attribute):
+        parts.append(cur.attr)
+        cur = cur.value
+    if not isinstance(cur, ast.Name) or not isinstance(node.ctx, ast.Load):
+        return None
+    parts.append(cur.id)
+    parts.reverse()
+    if parts[0] not in start_mod.__dict__ or LocalVar(parts[0]) in local_names:
+        return None
+    obj: Any = start_mod.__dict__[parts[0]]
+    for p in parts[1:]:
+        if not isinstance(obj, ModuleType):
+            return None
+        obj = obj.__dict__.get(p)
+    return ".".join(parts) if isinstance(obj, FunctionType) else None
+
+
 def visit_inner_scope(visitor: ast.NodeVisitor, node: Any, local_names: Set[Any]) -> None:
     """
     Visits a lambda or a function defined inside the analysed function. Its parameters are local names inside it
@@ -343,6 +369,8 @@ class IntroVisitor(ast.NodeVisitor):
         self._store_names: Set[LocalVar] = {current_fun_name}
         self.inters: List[FunctionInteractions] = []
         self.load_paths: List[DDSPath] = []
+        # The attribute nodes that are the function of a call (m.f(...)): seen by visit_Call
+        self._called_attr_nodes: Set[int] = set()
 
     def visit_Lambda(self, node: ast.Lambda) -> Any:
         visit_inner_scope(self, node, self._function_var_names)
@@ -353,6 +381,7 @@ class IntroVisitor(ast.NodeVisitor):
     def visit_Call(self, node: ast.Call) -> Any:
         # _logger.debug(f"visit_Call: {node} {dir(node)} {pformat(node)}")
         # We have visited this call. No need to look at it by-name anymore.
+        self._called_attr_nodes.add(id(node.func))
         n = IntroVisitor._get_call_name(node)
         # _logger.debug(f"visit_call: call name is {n}")
         if n is not None:
@@ -413,6 +442,38 @@ class IntroVisitor(ast.NodeVisitor):
         for a in arg_nodes:
             if not any(a is e for e in early_args):
                 self.visit(a)
+
+    def visit_Attribute(self, node: ast.Attribute) -> Any:
+        # A function of another module handed over by name through the module: apply(m.f). It is followed like a
+        # bare function name (see visit_Name).
+        dotted = (
+            None
+            if id(node) in self._called_attr_nodes
+            else function_given_through_module(
+                node, self._start_mod, self._function_var_names
+            )
+        )
+        if dotted is None or LocalVar(dotted) in self._store_names:
+            self.generic_visit(node)
+            return
+        self._store_names.add(LocalVar(dotted))
+        call_node = ast.Call(func=node, args=[], keywords=[], starargs=None, kwargs=None)
+        function_body_hash = dds_hash(self._body_lines[: node.lineno + 1])
+        function_inters_sig: Optional[PyHash] = dds_hash_commut(
+            _fis_to_siglist(self.inters)
+        )
+        fi_or_p = InspectFunction.inspect_call(
+            call_node,
+            self._gctx,
+            self._start_mod,
+            function_body_hash,
+            self._input_sig,
+            function_inters_sig,
+            self._function_var_names,
+            self._call_stack,
+        )
+        if fi_or_p is not None and isinstance(fi_or_p, FunctionInteractions):
+            self.inters.append(fi_or_p)
 
     def visit_Assign(self, node: ast.Assign) -> Any:
         targets = get_assign_targets(node)
